@@ -22,6 +22,7 @@ func Gen(run *vlib.Run, seed uint64, tier string) {
 	genFeatureLists(run, r.Fork("featurelist"), tier)
 	genScriptLists(run, r.Fork("scriptlist"), tier)
 	genAllTags(run, tier)
+	genPlainTags(run, tier)
 }
 
 func pairsOf(x vlib.Sx) ([]pair, error) {
@@ -224,6 +225,16 @@ func RunCase(line string) (impl, fail, sig string, err error) {
 		}
 		impl, fail = slAllCase(string(sb), langs)
 		return impl, fail, "c08-scriptlist-tag-lost", nil
+	case "sl-plain":
+		if len(items) != 2 {
+			return "", "", "", errors.New("sl-plain: want 1 argument")
+		}
+		tb, err := vlib.AsBytes(items[1])
+		if err != nil {
+			return "", "", "", err
+		}
+		impl, fail = slPlainCase(string(tb))
+		return impl, fail, "c08-scriptlist-not-a-function", nil
 	case "sl-enc":
 		if len(items) != 2 {
 			return "", "", "", errors.New("sl-enc: want 1 argument")
